@@ -38,7 +38,7 @@ pub fn run(_env: &Env, run: &Run) -> (Stats, Coverage) {
     let mut st = strtree(&sigma, n, |_c, s, st| visit(s, st));
     st.merge(cpsweep(|c, st| {
         let x = c as u32;
-        for l in [vec![x], vec![0x61, x], vec![x, 0x61], vec![0x41, x], vec![x, 0x41], vec![0xE9, x], vec![x, x], vec![0x65E5, x, 0x61], vec![0x1C5, x], vec![x, 0x1C5], vec![0x130, x], vec![x, 0x130], vec![0x1E9E, x], vec![x, 0x1E9E]] {
+        for l in [vec![x], vec![0x61, x], vec![x, 0x61], vec![0x41, x], vec![x, 0x41], vec![0xE9, x], vec![x, x], vec![0x65E5, x, 0x61], vec![0x1C5, x], vec![x, 0x1C5], vec![0x130, x], vec![x, 0x130], vec![0x1E9E, x], vec![x, 0x1E9E], vec![x, 0x3A3], vec![0x3A3, x], vec![0x41, 0x3A3, x], vec![x, 0x307], vec![0x49, x, 0x307]] {
             visit(&from_cps(&l), st);
         }
         for a in alias_chars(c) {
@@ -61,9 +61,9 @@ pub fn run(_env: &Env, run: &Run) -> (Stats, Coverage) {
     st.sample(json!({"input": ["U+01C5"], "expected": "U+01C6 (titlecase letter, no uppercase letter before it)"}));
     st.sample(json!({"input": ["a", "U+0130", "U+03A3"], "expected": "a i U+0307 U+03C3 (full, unconditional mapping)"}));
     let cov = Coverage {
-        rule: format!("every string of length <= {} over 19 symbols (upper, lower, titlecase, Other_Uppercase, multi-character mapping, mappings that grow and that shrink in UTF-8, 1-4 byte, uncased) + pumped runs and ASCII block strings + every scalar value in 14 templates (incl. next to a growing and next to a shrinking mapping, both orders) and next to each of its 16 other-plane aliases, through case_mapping_rule of UsernameCaseMapped and Nickname; oracle = concatenation of char::to_lowercase of each character (hence position independent), idempotence on the output; non-trivial = a mapped character that is not at index 0, or two mapped characters", n),
+        rule: format!("every string of length <= {} over 19 symbols (upper, lower, titlecase, Other_Uppercase, multi-character mapping, mappings that grow and that shrink in UTF-8, 1-4 byte, uncased) + pumped runs and ASCII block strings + every scalar value in 19 templates (incl. next to a growing and next to a shrinking mapping, both orders, and in the contexts the conditional SpecialCasing rules look at: around capital sigma, before a combining dot above) and next to each of its 16 other-plane aliases, through case_mapping_rule of UsernameCaseMapped and Nickname; oracle = concatenation of char::to_lowercase of each character (hence position independent), idempotence on the output; non-trivial = a mapped character that is not at index 0, or two mapped characters", n),
         alphabet: json!(sigma.iter().map(|c| format!("U+{:04X}", *c as u32)).collect::<Vec<_>>()),
-        bound_completed: format!("length <= {} ({} strings) x 2 profiles; sweep 1,112,064 x 14 templates x 2", n, tree_size(sigma.len(), n)),
+        bound_completed: format!("length <= {} ({} strings) x 2 profiles; sweep 1,112,064 x 19 templates x 2", n, tree_size(sigma.len(), n)),
         exhaustive: false,
         assumptions: vec!["char::to_lowercase (std) is the full untailored lowercase mapping the README documents".into()],
         extra: json!({"code_points_with_lowercase_mapping": with_mapping, "of_which_not_is_uppercase": not_upper}),
